@@ -186,7 +186,7 @@ class AbstractAxis(AbstractHasMetadata):
         return self.values.dtype
 
     def is_numeric(self):
-        return is_numeric(self.values)
+        return is_numeric(self) # uses the axis' dtype (on disk, string values have no numpy dtype)
 
 class AbstractAxes(object):
     _Axis = AbstractAxis
